@@ -95,6 +95,9 @@ def point_frame(n, pattern, extras, scale=1.0):
         d['enthalpy'] = [round(40.0 - 1.5 * i, 3) for i in range(n)]
     if extras in ('text', 'both'):
         d['remark'] = [f'pt{i}' for i in range(n)]
+    if extras == 'branch-words':            # a per-point text label that happens to use the words of the branch marks
+        d['step'] = ['ads' if b == 0 else 'des' for b in d['branch']]
+        d['note'] = ['des', 'ads', 'Des', 'desorption', 'des.', 'x1', 'ads'][:n] + ['x'] * max(0, n - 7)
     if extras == 'early-name':              # a column whose name sorts BEFORE 'branch'
         d['alpha'] = [round(40.0 - 1.5 * i, 3) for i in range(n)]
         d['Zeta'] = [round(1.0 + 0.5 * i, 3) for i in range(n)]     # upper case sorts before lower case
@@ -117,6 +120,7 @@ DATA_SHAPES = [(n, pat, ex) for n in (1, 2, 4, 7) for pat in ('all-ads', 'all-de
 ZERO_SHAPES = [(n, pat, ex) for n in (2, 4, 7) for pat in ('ads-from-zero', 'hysteresis-to-zero') for ex in ('none', 'numeric')
                if not (n < 4 and pat == 'hysteresis-to-zero')]
 EARLY_SHAPES = [(n, pat, 'early-name') for n in (4, 7) for pat in ('guessable', 'all-ads', 'all-des', 'user-alternating')]
+WORDS_SHAPES = [(n, pat, 'branch-words') for n in (4, 7) for pat in ('guessable', 'all-ads', 'all-des', 'user-alternating')]
 TEXTNUM_SHAPES = [(n, 'all-ads', ex) for n in (1, 4, 7) for ex in ('text-numeric', 'text-numeric-gaps')]
 
 
@@ -179,9 +183,11 @@ def mk_model_instance(name, params=None, prange=(0.05, 0.9), lrange=(0.25, 3.5),
     return m
 
 
-def mk_model(cfg, name, meta, params=None, material='gen-mat', fitted_dr=False, **kw):
+def mk_model(cfg, name, meta, params=None, material='gen-mat', fitted_dr=False, branch=None, **kw):
     import pygaps
     T = 77.355 if cfg[6] == 'K' else -195.795
+    if branch is not None:
+        meta = dict(meta, branch=branch)        # the branch the model describes (constructor argument)
     if fitted_dr and name in ('DR', 'DA'):
         # DR/DA carry a temperature-dependent constant that is set when the model is FITTED: generate data and fit
         p = numpy.linspace(0.02, 0.9, 25)
